@@ -507,8 +507,8 @@ class DFState:
                     continue
                 if data <= set(i.on_values):
                     return i
-                elif data > set(i.on_values):
-                    return None
+                elif data & set(i.on_values):
+                    return None # only part of data follows this transition: there is no single answer
             return self[DFTransition.Else]
         else:
             for i in self.all_transitions():
